@@ -197,6 +197,30 @@ def main(chk):
         ev.update({"id": len(events) + 1, "s": am.a_schema(plain), "w": am.a_schema(wrapped), "flat_pair": True})
         events.append(ev)
         chk.count("any_of_wrapped_any")
+    # code -> spec: random declarations nested three or four levels with forwarding types wherever the
+    # random builder put them (several in one tree, a wrapper inside a wrapper, under aliases, as
+    # union alternatives), each against the same tree with every wrapper removed
+    from . import deep
+    ndeep, made = (300 if quick else 3000), 0
+    for i in range(ndeep * 30):
+        if made >= ndeep:
+            break
+        b = deep.build(chk.rng, 3 + i % 2)
+        if b is None or strip(b[0]) == b[0]:
+            continue
+        w_abs, wrapped = b
+        s_abs = strip(w_abs)
+        try:        # (not through the cache: removing a wrapper around a union leaves a union inside a
+            #        union, which the DSL flattens -- the plain tree is whatever that builds)
+            plain = am.g_schema(s_abs)
+            s_back = am.a_schema(plain)
+        except Exception:
+            continue
+        ev = compare(plain, wrapped, nvals or 40, chk.rng)
+        ev.update({"id": len(events) + 1, "s": s_back, "w": w_abs, "flat_pair": s_back != s_abs})
+        events.append(ev)
+        made += 1
+        chk.count("deep_random_trees")
     chk.require(len(events) >= 1000, "fewer than 1000 wrapped trees (%d)" % len(events))
     for t in ("list", "dict", "any", "alias"):
         chk.require(chk.counts.get("tree_" + t, 0) > 0, "no wrapped tree of type " + t)
